@@ -296,7 +296,7 @@ thread_local! {
 pub fn install_panic_hook() {
     let default = std::panic::take_hook();
     std::panic::set_hook(Box::new(move |info| {
-        let quiet = QUIET.with(|q| *q.borrow());
+        let quiet = QUIET.with(|q| *q.borrow()) && std::env::var_os("EGVERIF_LOUD").is_none();
         let msg = if let Some(s) = info.payload().downcast_ref::<&str>() {
             s.to_string()
         } else if let Some(s) = info.payload().downcast_ref::<String>() {
